@@ -1,5 +1,5 @@
 """C17 — reported counts are exact and everything is reclaimed."""
-from props import engine_common, engine2_common
+from props import engine_common, engine2_common, ms_common
 from props.c01 import FINISH
 
 THEOREMS = ["Slock.C17.reachable_counts", "Slock.C17.lockedCount_is_depth_census", "Slock.C17.C17_drain", "Slock.C17.C17_lcount_grant",
@@ -16,6 +16,8 @@ def run(ctx):
     engine_common.run_engine(ctx, ["C17:"], n_quick=3000, n_thorough=60000)
     # records part: reference counts, KeyCount, reclamation (M-ENGINE stage 2 vs the real LockDB, snapshots include both refCounts and KeyCount)
     engine2_common.run_c17_records(ctx)
+    # update / re-lock of holds parked in the millisecond tables: nothing may be left behind (monitors only)
+    ms_common.run_ms_update(ctx, ["C17:"])
     ctx.assumptions.append("counters and census: M-ENGINE stage 1; KeyCount, lock-record / key-record reference counts and reclamation: M-ENGINE stage 2 (records with refCount, "
                            "tombstones, lazy popping), tied by the E-seq differential (snapshots include refCounts and KeyCount) and cross-checked against stage 1 through abs on every "
                            "operation; the drain theorem's hypothesis is 'queues empty' (stronger than 'no live hold or waiter'): that tombstones cannot outlive live entries is "
@@ -25,6 +27,8 @@ def run(ctx):
 
 
 def replay(path):
+    if ms_common.is_ms_replay(path):
+        return ms_common.replay_ms("C17", path)
     if "engine2 " in open(path).read():
         return engine2_common.replay_engine2("C17", path, ["C17:"])
     return engine_common.replay_engine("C17", path)
